@@ -77,8 +77,16 @@ def _calibrator_ranges(model):
         amt = max(amt, float(l.output_min - ko.min()))
       if l.output_max is not None:
         amt = max(amt, float(ko.max() - l.output_max))
+      mamt = None
+      if l.impute_missing and getattr(l, "missing_output", None) is not None and hasattr(l.missing_output, "numpy"):
+        mo = np.asarray(l.missing_output.numpy(), dtype=np.float64)
+        mamt = 0.0
+        if l.output_min is not None:
+          mamt = max(mamt, float(np.float32(l.output_min) - mo.min()))
+        if l.output_max is not None:
+          mamt = max(mamt, float(mo.max() - np.float32(l.output_max)))
       out.append({"layer": l.name, "mono": utils.canonicalize_monotonicity(l.monotonicity),
-                  "conv": utils.canonicalize_convexity(l.convexity), "out_of_range": amt})
+                  "conv": utils.canonicalize_convexity(l.convexity), "out_of_range": amt, "missing_out_of_range": mamt})
   return out
 
 
@@ -149,6 +157,14 @@ def _judge(ctx, case, model, step, label):
     return None
   fin = bool(np.all(np.isfinite(y)))
   cal = _calibrator_ranges(model)
+  if step != 0:
+    # the value a calibrator substitutes for a missing input is a weight of its own, clipped into the calibrator's
+    # bounds by its constraint after every update: judged exactly (tf.clip), at the layer boundary
+    for c in cal:
+      if c.get("missing_out_of_range") is not None and np.isfinite(c["missing_out_of_range"]):
+        ctx.check("state/missing-output-in-calibrator-bounds", c["missing_out_of_range"] <= 0.0,
+                  "calibrator %s substitutes a value %.6g outside its own output bounds for a missing input after %s" % (
+                      c["layer"], c["missing_out_of_range"], label), info=dict(info, calibrator=c))
   ctx.check("state/finite", fin, "non-finite model output with finite weights after %s" % label, info=info,
             finding=("KF-C05-a" if (not fin and hooks["degenerate_learned_keypoint_any"]) else None))
   if not fin:
